@@ -27,8 +27,8 @@ RULE = (
 ASSUMPTIONS = [
     "'delivered authentic' is decided by the independent tap (vf.refwire) at emission and by the simulator's delivery log",
     "timeliness is only demanded for packets the endpoint could process (receive keys installed, space not discarded, not closing, "
-    "current path validated) and with timers fired exactly at the requested deadline; key updates and address rebinding are kept "
-    "out of these runs because their known stalls (C01 findings) would make packets undecryptable",
+    "current path validated) and with timers fired exactly at the requested deadline; 30 % of the cases include key updates and "
+    "client address rebinding (their stalls were repaired, see DESIGN section 11)",
     "max_ack_delay is the value aioquic puts on the wire (25 ms); a 1 microsecond slack absorbs float rounding",
 ]
 
@@ -47,9 +47,13 @@ def gen_case(seed):
     from ..scenarios import gen_scenario
 
     rng = random.Random("c12/%s" % seed)
-    sc = gen_scenario(seed, allow_key_update=False, allow_stop=True)
-    sc["fates"].pop("rebind_after", None)
-    sc["script"] = [o for o in sc["script"] if o["op"] != "key_update"]
+    r2 = random.Random("c12-ku/%s" % seed)
+    ku = r2.random() < 0.3
+    sc = gen_scenario(seed, allow_key_update=ku, allow_stop=True)
+    if not ku:
+        # (70 % of the cases stay free of key updates and address rebinding)
+        sc["fates"].pop("rebind_after", None)
+        sc["script"] = [o for o in sc["script"] if o["op"] != "key_update"]
     mode = rng.choice(["mixed", "mixed", "long-low-loss", "corrupt-first"])
     if mode == "long-low-loss":
         sc["fates"].update({"loss": rng.choice([0.01, 0.02, 0.03]), "dup": 0.01, "adv_seconds": 30.0, "adv_dgrams": 3000, "jitter": 0.0})
@@ -60,7 +64,7 @@ def gen_case(seed):
         sc["step_cap"] = 80000
     elif mode == "corrupt-first":
         sc["fates"]["corrupt_first"] = 0.3
-    sc["mode"] = mode
+    sc["mode"] = mode + ("+ku-rebind" if ku else "")
     return sc
 
 
